@@ -1,4 +1,5 @@
-// Contract bundle for crates/oxidd-rules-zbdd/src/{lib,apply_rec}.rs (properties C09, C02/C01/C03/C06/C13 ZBDD part)
+// Contract bundle for crates/oxidd-rules-zbdd/src/{lib,apply_rec}.rs (property C09 and the ZBDD parts of C01/C02/C03/C04/C06/C12/C13/C16);
+// see contracts/zbdd.REPORT.md for the list of units, assumptions, findings and what is not covered.
 // Everything between `//@fn`/`//@item` and `//@end` is replaced by text extracted
 // from /repo on every run (vx/bundle.py).  Everything else is the hand-written
 // contract prelude: the *assumed* manager contract over the stateless term view
@@ -217,7 +218,13 @@ pub broadcast proof fn lemma_mem_within(t: Tree, s: Env, l: int, n: int)
 pub broadcast proof fn lemma_set_of_within(env: Env, n: int)
     ensures #[trigger] within(set_of(env, n), 0, n),
 {}
+/// the tautology at `l` covers every legal diagram whose top is not above `l` (what apply_ite uses)
+pub broadcast proof fn lemma_taut_covers(t: Tree, s: Env, l: int, n: int)
+    requires wf(t), below(t, n), 0 <= l <= top(t), l <= n <= u32::MAX, #[trigger] mem(t, s),
+    ensures #[trigger] mem(taut_tree(l, n), s),
+{ lemma_mem_within_ind(t, s, l, n); lemma_mem_taut_ind(l, n, s); }
 pub broadcast group taut_lemmas { lemma_taut_ok, lemma_mem_taut, lemma_mem_within, lemma_set_of_within }
+pub broadcast group ite_lemmas { lemma_taut_ok, lemma_taut_covers }
 
 /// singleton / base families
 pub broadcast proof fn lemma_singleton_set(s: Env, v: int)
@@ -1259,7 +1266,7 @@ broadcast use {leaf_lemmas, upd_lemmas, taut_lemmas, set_lemmas};
 pub struct ZBDDRules;
 impl ZBDDRules {
 // the reduction rule itself (C01/C03): DiagramRules::reduce of ZBDDRules
-//@fn file=crates/oxidd-rules-zbdd/src/lib.rs path=impl:DiagramRules<E,~N,~ZBDDTerminal>~for~ZBDDRules/fn:reduce props=C01,C03,C09 vis=pub
+//@fn file=crates/oxidd-rules-zbdd/src/lib.rs path=impl:DiagramRules<E,~N,~ZBDDTerminal>~for~ZBDDRules/fn:reduce id=ZBDDRules__reduce props=C01,C03,C09 vis=pub
 //@header
 fn reduce<E: Edge, N: InnerNode<E>, M: Manager<Edge = E, InnerNode = N, Terminal = ZBDDTerminal>>(manager: &M, level: LevelNo, children: Children2<E>) -> (res: ReducedOrNew<E, N>)
 //@spec
@@ -1337,7 +1344,7 @@ impl<E: Edge> ZBDDCache<E> {
 
 pub mod apply_rec {
 use super::*;
-broadcast use {leaf_lemmas, taut_lemmas};
+broadcast use {leaf_lemmas, ite_lemmas};
 //@fn file=crates/oxidd-rules-zbdd/src/apply_rec.rs path=fn:apply_union nodecr expect=R5:1 props=C09,C02,C06 vis=pub
 //@spec
     requires edge_ok::<M::Edge>(), ok(f.view(), manager.num_levels_spec()), ok(g.view(), manager.num_levels_spec()),
@@ -1358,11 +1365,6 @@ broadcast use {leaf_lemmas, taut_lemmas};
     requires edge_ok::<M::Edge>(), ok(f.view(), manager.num_levels_spec()), ok(g.view(), manager.num_levels_spec()),
     ensures res is Ok ==> symm_diff_post(f.view(), g.view(), manager.num_levels_spec(), res->Ok_0.view()),
 //@end
-//@fn file=crates/oxidd-rules-zbdd/src/apply_rec.rs path=fn:apply_not nodecr props=C02 vis=pub(crate)
-//@spec
-    requires edge_ok::<M::Edge>(), zcache_ok(manager), ok(f.view(), manager.num_levels_spec()),
-    ensures res is Ok ==> not_post(f.view(), manager.num_levels_spec(), res->Ok_0.view()),
-//@end
 //@fn file=crates/oxidd-rules-zbdd/src/apply_rec.rs path=fn:apply_ite nodecr expect=R5:3 props=C02,C06 vis=pub(crate)
 //@spec
     requires edge_ok::<M::Edge>(), zcache_ok(manager), ok(f.view(), manager.num_levels_spec()), ok(g.view(), manager.num_levels_spec()), ok(h.view(), manager.num_levels_spec()),
@@ -1373,6 +1375,11 @@ pub mod apply_rec_w {
 use super::*;
 use super::apply_rec::*;
 broadcast use {leaf_lemmas, upd_lemmas, taut_lemmas, set_lemmas};
+//@fn file=crates/oxidd-rules-zbdd/src/apply_rec.rs path=fn:apply_not nodecr props=C02 vis=pub(crate)
+//@spec
+    requires edge_ok::<M::Edge>(), zcache_ok(manager), ok(f.view(), manager.num_levels_spec()),
+    ensures res is Ok ==> not_post(f.view(), manager.num_levels_spec(), res->Ok_0.view()),
+//@end
 //@fn file=crates/oxidd-rules-zbdd/src/apply_rec.rs path=fn:subset nodecr expect=R5:1,R11:1 props=C09,C06 cases=VAL:0-1,0,1 vis=pub
 //@spec
     requires VAL == -1 || VAL == 0 || VAL == 1, edge_ok::<M::Edge>(), ok(f.view(), manager.num_levels_spec()),
